@@ -7,9 +7,18 @@ cfg  = the configuration (the same text for both members of a pair):
        fail_at (evaluation indices that fail), again (rounds with a second ask before the tell),
        inproc = none | seq | interleaved (+ twins = 2|3): several searches built from ONE problem object before any of
        them runs, then run one after the other / with alternating ask-tell rounds; their sequences are in "twins"
-env  = what MUST NOT matter: {"perturb": int, "log_dir": path, "cwd": path}
+       space = mixed | small | floats | hetero (categoricals whose choices have DIFFERENT TYPES, strings included);
+       warm = number of checkpoint rows handed to CBO.fit_surrogate(df) before the first ask (a LONG history);
+       scaler = CBO(objective_scaler=...);
+       inproc = history: EARLIER searches ran in this interpreter (pre = same: the same options with another seed;
+       pre = all: additionally searches of every class and every initial design on the same problem, one with the same seed)
+env  = what MUST NOT matter: {"perturb": int, "log_dir": path, "cwd": path, "cpus": null | k (the process may only use k CPUs:
+       scheduler affinity + LOKY_MAX_CPU_COUNT, i.e. what joblib / os report as the number of CPUs differs between the two processes)}
 Prints exactly one JSON line:
     {"status": "ok" | "unavailable" | "raised", "props": [[[name, value], ...], ...], "error": "..."}
+"global_draws" = every draw from / write to a PROCESS-GLOBAL generator (NumPy's legacy singleton, the `random` module's
+hidden instance — whoever makes it: deephyper, scikit-learn, SciPy, ...) made while a search call was running, with
+the call site (`by` = innermost frame outside numpy/random, `via` = innermost deephyper frame).
 Floats are printed by float.hex (exact).  `unavailable` = the constructor refused the configuration
 (not a reproducibility statement); `raised` = ask/tell raised after `props` had been proposed.
 """
@@ -36,8 +45,117 @@ def enc(v):
     return ["s", str(v)]
 
 
+class Taint:
+    """dynamic taint of the two process-global generators.  `install()` runs BEFORE scikit-learn / SciPy / deephyper are
+    imported: NumPy's legacy singleton (`numpy.random.mtrand._rand`, what `np.random.<f>`, `check_random_state(None)` of
+    scikit-learn and SciPy, and SciPy's `rvs` without `random_state` all use) and the `random` module's hidden instance
+    are replaced by subclasses whose methods note the call stack whenever `armed` is set (= a search call is running;
+    the harness's own perturbation draws and import-time draws are not recorded)."""
+
+    armed = False
+    draws = {}
+    src = ""
+
+    @classmethod
+    def note(cls, stream, method):
+        if not cls.armed:
+            return
+        cls.armed = False
+        try:
+            frames = []
+            f = sys._getframe(2)
+            while f is not None and len(frames) < 60:
+                frames.append((f.f_code.co_filename, getattr(f.f_code, "co_qualname", f.f_code.co_name), f.f_lineno))
+                f = f.f_back
+            me = os.path.abspath(__file__)
+            by = via = None
+            for fn, qn, ln in frames:
+                rel = cls.rel(fn)
+                if by is None and fn != me and not rel.startswith(("numpy/", "random.py")):
+                    by = (rel, qn, ln)
+                if via is None and fn.startswith(cls.src):
+                    via = (rel, qn, ln)
+            by = by or ("?", "?", 0)
+            key = (stream, method, by[0], by[1], via[0] if via else "", via[1] if via else "")
+            d = cls.draws.get(key)
+            if d is None:
+                if len(cls.draws) >= 24:
+                    return
+                cls.draws[key] = d = {"stream": stream, "method": method, "by": f"{by[0]}:{by[1]}", "by_line": by[2],
+                                      "via": f"{via[0]}:{via[1]}" if via else "", "via_line": via[2] if via else 0, "count": 0,
+                                      "stack": [f"{cls.rel(fn)}:{qn}:{ln}" for fn, qn, ln in frames[:10] if fn != me]}
+            d["count"] += 1
+        finally:
+            cls.armed = True
+
+    @classmethod
+    def rel(cls, fn):
+        if cls.src and fn.startswith(cls.src):
+            return fn[len(cls.src):].lstrip("/").removeprefix("deephyper/")
+        for mark in ("site-packages/", "dist-packages/"):
+            if mark in fn:
+                return fn.split(mark, 1)[1]
+        return os.path.basename(fn)
+
+    @classmethod
+    def install(cls, src):
+        import numpy as np
+
+        cls.src = os.path.realpath(src)
+        base = np.random.RandomState
+        old = np.random.mtrand._rand
+
+        def wrap_np(name):
+            orig = getattr(base, name)
+
+            def method(self, *a, **k):
+                Taint.note("numpyGlobal", name)
+                return orig(self, *a, **k)
+
+            method.__name__ = name
+            return method
+
+        ns = {n: wrap_np(n) for n in dir(base) if not n.startswith("_") and n != "get_state" and callable(getattr(base, n))}
+        traced = type("TracedGlobalRandomState", (base,), ns)()
+        base.set_state(traced, old.get_state())
+        for mod in (np.random.mtrand, np.random):
+            for n, v in list(vars(mod).items()):
+                if getattr(v, "__self__", None) is old:
+                    setattr(mod, n, getattr(traced, n))
+        np.random.mtrand._rand = traced
+
+        class TracedGlobalRandom(random.Random):
+            def random(self):
+                Taint.note("pythonGlobal", "random")
+                return super().random()
+
+            def getrandbits(self, k):
+                Taint.note("pythonGlobal", "getrandbits")
+                return super().getrandbits(k)
+
+            def seed(self, *a, **k):
+                Taint.note("pythonGlobal", "seed")
+                return super().seed(*a, **k)
+
+            def setstate(self, st):
+                Taint.note("pythonGlobal", "setstate")
+                return super().setstate(st)
+
+        oldp = random._inst
+        tp = TracedGlobalRandom()
+        random.Random.setstate(tp, oldp.getstate())
+        for n, v in list(vars(random).items()):
+            if getattr(v, "__self__", None) is oldp:
+                setattr(random, n, getattr(tp, n))
+        random._inst = tp
+
+
 FLOAT_NAMES = ["alpha", "beta", "gamma", "delta"]
 FLOAT_TARGET = {"alpha": 0.0, "beta": 10.0, "gamma": 4.0, "delta": 6.5}
+# categoricals whose choices have DIFFERENT TYPES (strings, ints, floats in one list)
+HETERO_OPT = ["adam", "sgd", 1, 2.5, "none"]
+HETERO_REG = ["l2", 0, 0.5, "off"]
+HETERO_BONUS = {"adam": 0.0, "sgd": 0.8, 1: -0.4, 2.5: 1.1, "none": 0.3, "l2": 0.2, 0: -0.1, 0.5: 0.6, "off": 0.0}
 SMALL_ACT = ["relu", "tanh", "gelu"]
 SMALL_OPT = ["adam", "sgd", "rmsprop", "lion"]
 
@@ -51,6 +169,15 @@ def build_problem(cfg):
         # four float hyperparameters of the same kind; the optimum sits on two bounds (alpha=0, beta=10)
         for name in FLOAT_NAMES:
             p.add_hyperparameter((0.0, 10.0), name)
+        return p
+    if cfg.get("space") == "hetero":
+        p.add_hyperparameter((0.0, 4.0), "x")
+        p.add_hyperparameter((1, 16), "n")
+        c = p.add_hyperparameter(list(HETERO_OPT), "opt")
+        p.add_hyperparameter(list(HETERO_REG), "reg")
+        if cfg.get("cond"):
+            d = p.add_hyperparameter((0.0, 1.0), "child")
+            p.add_condition(cs.InCondition(d, c, ["adam", 1]))
         return p
     if cfg.get("space") == "small":
         # small ALL-DISCRETE space with string categories (3 x 4 x 2 = 24 points): candidate sets are full of
@@ -84,6 +211,19 @@ def objective(cfg, x):
             return "F_k"
         if cfg.get("nobj", 1) == 2:
             return (v, -abs(x["gamma"] - x["delta"]))
+        return v
+    if cfg.get("space") == "hetero":
+        opt, reg = x["opt"], x["reg"]
+        opt = opt.item() if hasattr(opt, "item") else opt
+        reg = reg.item() if hasattr(reg, "item") else reg
+        v = -((x["x"] - 2.5) ** 2) + 0.05 * x["n"] + HETERO_BONUS[opt] + HETERO_BONUS[reg]
+        if cfg.get("cond"):
+            c = x.get("child", 0.0)
+            v += 0.3 * (0.0 if c != c else c)
+        if cfg.get("fail") and x["n"] % 5 == 4:
+            return "F_k"
+        if cfg.get("nobj", 1) == 2:
+            return (v, -0.5 * v + x["x"])
         return v
     if cfg.get("space") == "small":
         v = {"relu": 0.0, "tanh": 0.5, "gelu": 0.1}[x["cat"]] + {"adam": 0.3, "sgd": 0.0, "rmsprop": -0.2, "lion": 0.3}[x["opt"]]
@@ -128,7 +268,18 @@ def main():
     sys.path.insert(0, src)
     os.makedirs(env["cwd"], exist_ok=True)
     os.chdir(env["cwd"])
+    if env.get("cpus"):
+        # the number of CPUs the process sees (joblib.cpu_count / effective_n_jobs(-1), os.sched_getaffinity) is a hidden input
+        k = int(env["cpus"])
+        os.environ["LOKY_MAX_CPU_COUNT"] = str(k)
+        try:
+            os.sched_setaffinity(0, sorted(os.sched_getaffinity(0))[:k])
+        except (AttributeError, OSError):
+            pass
     import numpy as np
+
+    # before anything else imports numpy.random / random: SciPy's distributions keep the generator they find at import time
+    Taint.install(src)
 
     # imports first: some third-party modules consume the global `random` generator at import time
     import deephyper
@@ -151,12 +302,14 @@ def main():
         sh_py.random()
 
     def disturb(k):
-        # the hidden state keeps moving, differently in the two processes
+        # the hidden state keeps moving, differently in the two processes (the harness's own draws are not taint)
+        armed, Taint.armed = Taint.armed, False
         for _ in range((pert + k) % 5):
             np.random.standard_normal()
             random.random()
             sh_np.standard_normal()
             sh_py.random()
+        Taint.armed = armed
 
     def globals_touched():
         a, b = np.random.get_state(), sh_np.get_state()
@@ -164,6 +317,14 @@ def main():
         return {"np_global_touched": not bool(np_same), "py_global_touched": random.getstate() != sh_py.getstate()}
 
     out = {"status": "ok", "props": [], "error": ""}
+
+    def emit():
+        Taint.armed = False
+        out.update(globals_touched())
+        out["global_draws"] = list(Taint.draws.values())
+        print(json.dumps(out))
+
+    Taint.armed = True  # from here on every draw from a process-global generator is the code under test's
     problem = build_problem(cfg)  # ONE problem object: every search of this process is built from it
     names = problem.hyperparameter_names
     kind = cfg["search"]
@@ -178,11 +339,62 @@ def main():
         if cfg.get("sm", "ET") not in ("ET", "RF", "TB", "RS"):
             SHARED.pop("surrogate_model_kwargs")
 
-    class Drv:
-        """one search object being driven; its evaluations are numbered so that `fail_at` can make the i-th one fail"""
+    def sample_rows(c, n, rs):
+        """n valid rows (dicts name -> value) of the problem's space, from a private generator"""
+        rows = []
+        for _ in range(n):
+            if c.get("space") == "floats":
+                x = {nm: float(rs.uniform(0, 10)) for nm in FLOAT_NAMES}
+            elif c.get("space") == "small":
+                x = {"cat": SMALL_ACT[rs.randint(3)], "opt": SMALL_OPT[rs.randint(4)], "ord": [1, 2][rs.randint(2)]}
+                if c.get("cond"):
+                    x["child"] = ["x", "y"][rs.randint(2)]
+            elif c.get("space") == "hetero":
+                x = {"x": float(rs.uniform(0, 4)), "n": int(rs.randint(1, 17)), "opt": HETERO_OPT[rs.randint(5)], "reg": HETERO_REG[rs.randint(4)]}
+                if c.get("cond"):
+                    x["child"] = float(rs.uniform(0, 1))
+            else:
+                x = {"i_log": int(rs.randint(1, 65)), "r": float(rs.uniform(-1.5, 2.5)), "cat": ["a", "b", "c"][rs.randint(3)],
+                     "ord": [1, 2, 4, 8][rs.randint(4)], "k": int(rs.randint(0, 10))}
+                if c.get("cond"):
+                    x["child"] = int(rs.randint(0, 6))
+                    x["child2"] = float(rs.uniform(0, 1))
+            rows.append(x)
+        return rows
 
-        def __init__(self, idx, seed=None):
+    def checkpoint(c, n):
+        """the results table of a previous campaign of n evaluations on this problem (deterministic, same text in both processes)"""
+        import pandas as pd
+
+        rs = np.random.RandomState(20240 + n)
+        recs = []
+        for j, x in enumerate(sample_rows(c, n, rs)):
+            y = objective(c, x)
+            rec = {"p:" + k: v for k, v in x.items()}
+            rec["job_id"] = j
+            if isinstance(y, tuple):
+                for i, yi in enumerate(y):
+                    rec[f"objective_{i}"] = yi
+            elif c.get("nobj", 1) == 2:
+                rec["objective_0"] = rec["objective_1"] = y  # a failure label
+            else:
+                rec["objective"] = y
+            recs.append(rec)
+        df = pd.DataFrame(recs)
+        for col in [c_ for c_ in df.columns if c_.startswith("objective")]:
+            if df[col].map(lambda v: isinstance(v, str)).any():
+                # what pandas.read_csv gives for a results.csv with failures: a column of strings ("F_k", "1.25", ...)
+                df[col] = df[col].map(lambda v: v if isinstance(v, str) else repr(float(v))).astype("string")
+        return df
+
+    class Drv:
+        """one search object being driven; its evaluations are numbered so that `fail_at` can make the i-th one fail.
+        `over` = options that differ from the configuration under test (predecessor searches of the history scenario)"""
+
+        def __init__(self, idx, seed=None, over=None):
             self.idx, self.props, self.count, self.s = idx, [], 0, None
+            self.cfg = dict(cfg, **(over or {}))
+            self.kind = self.cfg["search"]
             self.seed = seed_value(cfg) if seed is None else seed
 
         def evaluate(self, x):
@@ -191,41 +403,46 @@ def main():
             return "F_late" if i in fail_at else objective(cfg, x)
 
         def build(self):
-            drv = self
+            drv, c, kind = self, self.cfg, self.kind
 
             async def run(job, offset=0.0):
                 v = drv.evaluate(job.parameters)
                 return v  # `offset` (run_function_kwargs) is accepted and must not matter
 
             mk = {"num_workers": 1}
-            if cfg.get("objs"):
+            if c.get("objs"):
                 mk["run_function_kwargs"] = RUN_KW
             ev = Evaluator.create(run, method="serial", method_kwargs=mk)
             common = dict(random_state=self.seed, log_dir=env["log_dir"] + ("" if self.idx == 0 else f"_{self.idx}"))
             if kind == "CBO":
                 kw = dict(
-                    surrogate_model=cfg.get("sm", "ET"),
-                    acq_func=cfg.get("acq", "UCBd"),
-                    multi_point_strategy=cfg.get("mps", "cl_max"),
-                    initial_point_generator=cfg.get("design", "random"),
-                    n_initial_points=cfg.get("n_init", 4),
-                    n_points=cfg.get("n_points", 64),
-                    moo_scalarization_strategy=cfg.get("moo", "Chebyshev"),
-                    acq_optimizer=cfg.get("acq_opt", "auto"),
-                    filter_failures=cfg.get("ff", "min"),
-                    update_prior=bool(cfg.get("update_prior", False)),
-                    update_prior_quantile=cfg.get("upq", 0.1),
+                    surrogate_model=c.get("sm", "ET"),
+                    acq_func=c.get("acq", "UCBd"),
+                    multi_point_strategy=c.get("mps", "cl_max"),
+                    initial_point_generator=c.get("design", "random"),
+                    n_initial_points=c.get("n_init", 4),
+                    n_points=c.get("n_points", 64),
+                    moo_scalarization_strategy=c.get("moo", "Chebyshev"),
+                    acq_optimizer=c.get("acq_opt", "auto"),
+                    filter_failures=c.get("ff", "min"),
+                    update_prior=bool(c.get("update_prior", False)),
+                    update_prior_quantile=c.get("upq", 0.1),
                 )
-                if cfg.get("sm_kwargs"):
-                    kw["surrogate_model_kwargs"] = cfg["sm_kwargs"]
-                if cfg.get("objs"):
+                if int(c.get("n_jobs", 1)) != 1:
+                    kw["n_jobs"] = int(c["n_jobs"])
+                if c.get("scaler", "auto") != "auto":
+                    kw["objective_scaler"] = c["scaler"]
+                if c.get("sm_kwargs"):
+                    kw["surrogate_model_kwargs"] = c["sm_kwargs"]
+                if c.get("objs") and kind == cfg["search"]:
                     # option OBJECTS (the very same dict / list objects for every search of this process)
                     kw.update(SHARED)
-                if cfg.get("acq_opt", "auto") in ("ga", "mixedga"):
+                if c.get("acq_opt", "auto") in ("ga", "mixedga"):
                     kw["acq_optimizer_freq"] = 1
                 s = CBO(problem, ev, **common, **kw)
-                if cfg.get("transfer") == "gmm":
-                    # transfer learning from a fixed table that lacks two hyperparameters
+                if c.get("transfer") in ("gmm", "gmm-partial"):
+                    # transfer learning from a fixed table of a previous campaign on a SMALLER space: "gmm" lacks one or two
+                    # hyperparameters, "gmm-partial" (columns dropped below) at least two of the flat space
                     import pandas as pd
 
                     rs = np.random.RandomState(12345)
@@ -233,25 +450,38 @@ def main():
                     for j in range(24):
                         # several columns of the SAME kind (two integers / two categoricals / four floats): the order in
                         # which the sampler enumerates them must not depend on the process
-                        if cfg.get("space") == "small":
+                        if c.get("space") == "small":
                             rows.append({"job_id": j, "p:cat": SMALL_ACT[j % 3], "p:opt": SMALL_OPT[j % 4], "objective": float(rs.rand())})
-                        elif cfg.get("space") == "floats":
+                        elif c.get("space") == "floats":
                             rows.append(dict({"job_id": j, "objective": float(rs.rand())}, **{"p:" + n: float(rs.uniform(0, 10)) for n in FLOAT_NAMES}))
+                        elif c.get("space") == "hetero":
+                            rows.append({"job_id": j, "p:x": float(rs.uniform(0, 4)), "p:n": int(rs.randint(1, 17)),
+                                         "p:opt": HETERO_OPT[j % 5], "objective": float(rs.rand())})
                         else:
                             rows.append({"job_id": j, "p:i_log": int(rs.randint(1, 65)), "p:r": float(rs.uniform(-1.5, 2.5)),
                                          "p:k": int(rs.randint(0, 10)), "p:cat": ["a", "b", "c"][j % 3], "objective": float(rs.rand())})
-                    s.fit_generative_model(pd.DataFrame(rows))
-                if cfg.get("mode", "asktell") == "asktell":
+                    tdf = pd.DataFrame(rows)
+                    if c.get("transfer") == "gmm-partial":
+                        keep = {"small": ["p:cat"], "floats": ["p:alpha"], "hetero": ["p:x"]}.get(c.get("space"), ["p:r", "p:cat"])
+                        tdf = tdf[["job_id", "objective"] + keep]
+                    s.fit_generative_model(tdf)
+                if c.get("mode", "asktell") == "asktell":
                     s._setup_optimizer()
+                if int(c.get("warm", 0)) > 0:
+                    # restart from the checkpoint of a LONG previous campaign: the whole history is told at once
+                    Taint.armed = False
+                    df = checkpoint(c, int(c["warm"]))
+                    Taint.armed = True
+                    s.fit_surrogate(df)
             elif kind == "RS":
                 s = RandomSearch(problem, ev, **common)
             elif kind == "REGEVO":
-                s = RegularizedEvolution(problem, ev, **common, population_size=cfg.get("pop", 5), sample_size=cfg.get("sample", 3))
+                s = RegularizedEvolution(problem, ev, **common, population_size=c.get("pop", 5), sample_size=c.get("sample", 3))
             elif kind == "EDS":
                 from deephyper.hpo import ExperimentalDesignSearch
 
-                s = ExperimentalDesignSearch(problem, ev, **common, n_points=cfg.get("n_points", 12), design=cfg.get("design", "random"))
-                if cfg.get("mode", "asktell") == "asktell":
+                s = ExperimentalDesignSearch(problem, ev, **common, n_points=c.get("n_points", 12), design=c.get("design", "random"))
+                if c.get("mode", "asktell") == "asktell":
                     s._setup_optimizer()
             else:
                 raise SystemExit(f"unknown search {kind}")
@@ -261,10 +491,12 @@ def main():
             for x in X:
                 self.props.append([[name, enc(x[name])] for name in names])
 
-        def round(self, k, n):
+        def round(self, k, n, tell=True):
             disturb(k)
             X = self.s.ask(n)
             self.record(X)
+            if not tell:
+                return
             if k in again:
                 # ask again before any tell: the search must move on to new configurations (and stay reproducible)
                 disturb(k + 2)
@@ -282,18 +514,40 @@ def main():
 
     inproc = cfg.get("inproc", "none")
     if inproc == "history":
-        # an EARLIER search with another seed, built from the same problem / option objects, runs to its end first;
-        # then the search under test is built from the very same objects.  Reported: the second one.
-        pre = Drv(1, seed=int(cfg["seed"]) % 1000 + 17)
-        try:
-            pre.build()
-            for k, n in enumerate(cfg["batches"][:4]):
-                pre.round(k, n)
-        except Exception as e:
-            out["status"] = "unavailable"
-            out["error"] = f"predecessor: {type(e).__name__}: {e}"[:300]
-            print(json.dumps(out))
-            return
+        # EARLIER searches, built from the same problem / option objects, run first in this interpreter; then the
+        # search under test is built from the very same objects.  Reported: the search under test only.
+        #   pre = same : the same options with another seed, first four batches (the surrogate gets fitted)
+        #   pre = all  : additionally the initial design of a CBO with every initial_point_generator (same problem, same
+        #                number of initial points: any process-level memo of a sampler / space / encoder is warm), an
+        #                ExperimentalDesignSearch with the design under test, a RandomSearch, a RegularizedEvolution, and a
+        #                short search with the options AND the seed of the search under test itself
+        pseed = int(cfg["seed"]) % 1000 + 17
+        plan = [(pseed, {"inproc": "none", "warm": 0, "mode": "asktell"}, cfg["batches"][:4])]
+        if cfg.get("pre", "same") == "all":
+            base = {"inproc": "none", "warm": 0, "mode": "asktell", "transfer": "none", "objs": False}
+            first = [int(cfg.get("n_init", 4))]
+            for j, dsg in enumerate(["lhs", "sobol", "halton", "hammersly", "grid", "random"]):
+                plan.append((pseed + 1 + j, dict(base, search="CBO", design=dsg), first))
+            plan.append((pseed + 11, dict(base, search="EDS", design=cfg.get("design", "random")), first))
+            plan.append((pseed + 21, dict(base, search="RS"), [2, 2]))
+            plan.append((pseed + 22, dict(base, search="REGEVO"), [3, 3, 1]))
+            plan.append((int(cfg["seed"]), dict(base, design=cfg.get("design", "random")), [2]))
+        done = 0
+        for i, (sd, over, bs) in enumerate(plan):
+            pre = Drv(1 + i, seed=sd, over=over)
+            try:
+                pre.build()
+                for k, n in enumerate(bs):
+                    pre.round(k, n, tell=(i == 0 or len(bs) > 1))  # the design-only predecessors just ask their design
+                done += 1
+            except Exception as e:
+                if i == 0:
+                    out["status"] = "unavailable"
+                    out["error"] = f"predecessor: {type(e).__name__}: {e}"[:300]
+                    emit()
+                    return
+                # a predecessor of another class this tree cannot build / run (e.g. DUMMY): it simply did not happen
+        out["predecessors"] = done
         drvs = [Drv(0)]
     else:
         drvs = [Drv(i) for i in range(1 if inproc == "none" else int(cfg.get("twins", 2)))]
@@ -303,7 +557,7 @@ def main():
     except Exception as e:  # configuration refused by the constructor: not available on this tree
         out["status"] = "unavailable"
         out["error"] = f"{type(e).__name__}: {e}"[:300]
-        print(json.dumps(out))
+        emit()
         return
 
     try:
@@ -324,8 +578,7 @@ def main():
     out["props"] = drvs[0].props
     if len(drvs) > 1:
         out["twins"] = [d.props for d in drvs[1:]]
-    out.update(globals_touched())
-    print(json.dumps(out))
+    emit()
 
 
 if __name__ == "__main__":
